@@ -77,6 +77,7 @@ def attach():
 
 class C12(Prop):
     id = "C12"
+    tour_every = 3
     level = "exploration"
     technique = "exhaustive enumeration of the real encoder/decoder under runtime contracts vs an independent bit table"
     rule = ("complete enumeration: 127 non-empty subsets x 6 input forms (set, frozenset, sorted list, reversed list, "
